@@ -144,6 +144,39 @@ def monitor(case, tr, raw):
     return None
 
 
+TSO_ROBUST = ("which is reclaimed", "FIFO order", "without a successful head CAS", "reclaimed twice",
+              "on an empty queue", "crashed", "never finished")
+
+
+def monitor_tso(case, tr, raw):
+    """x86-TSO search mode: the trace is sequentially consistent in the order in which stores reach memory, but a call
+    may return before its last store is visible; only the verdicts that do not depend on that are kept (values
+    returned, accesses to reclaimed nodes, double reclamation)"""
+    why = monitor(case, tr, raw)
+    if why and any(k in why for k in TSO_ROBUST):
+        return why
+    return None
+
+
+def run_tso(ctx, exe, n):
+    rng = random.Random(ctx.seed * 7919 + 713)
+    c2 = core.Ctx(ctx.pid, "quick", ctx.seed + 17)
+    try:
+        cases = gen_cases(c2, "quick")
+    finally:
+        c2.cleanup()
+    rng.shuffle(cases)
+    return core.tso_search(ctx, "mpmc", exe, cases[:n], monitor_tso)
+
+
+def tso_pass(ctx, exe):
+    """every run: the queue over the real hazard_pointer.c on the x86-TSO store-buffer machine (rt/rt.c RT_TSO): the
+    publish / fence / re-validate protocol of hazard_pointer_using is invisible to a sequentially consistent run"""
+    n, bad = run_tso(ctx, exe, 12000 if ctx.tier == "quick" else 60000)
+    ctx.oblige("monitor:mpmc-x86-tso(%d runs)" % n, bad == 0, "%d runs with delayed stores judged a violation" % bad)
+    ctx.coverage["mpmc_tso_runs"] = n
+
+
 def rand_prog(rng, n, joined):
     p = []
     for _ in range(n):
@@ -253,6 +286,7 @@ def run(ctx):
                                      "in the implementation trace"})
         if not ok or ctx.failures:
             search(ctx, exe)
+        tso_pass(ctx, exe)
     hazard_layer(ctx)
     core.finish(ctx, extra_assumptions=ASSUME)
 
@@ -307,6 +341,13 @@ def corpus(ctx):
 
 
 def replay(ctx, payload):
+    if str(payload.get("harness", "")).endswith("+tso"):
+        exe = build(ctx)
+        c = payload.get("case")
+        impl = core.run_sharded(core.TSO_CMD + [exe], [c])[0]
+        why = core.safe_monitor(monitor_tso, c, core.parse_trace(impl) if impl is not None else None, impl)
+        print("case:  %s\nimpl (x86-TSO store buffers; flush tokens 100+t in the schedule):  %s\nmonitor: %s" % (c, (impl or "")[:3000], why or "ok"))
+        return 1 if why else 0
     if str(payload.get("harness", "")).split("+")[0] == "hazard":
         from vf.props import C14
         return C14.replay(ctx, payload)
